@@ -104,3 +104,19 @@ structure GPend (s : S) : Prop where
         tally (aPend sh) s.adders + s.ring.count sh + wHoldEntry s sh = (if g = [] then 0 else 1)
 
 end Netpoll.Shard
+
+namespace Netpoll.Shard
+
+/-- every getter id is in exactly one place; what was invoked was appended or not; unflushed data has a flusher -/
+structure GIds (s : S) : Prop where
+  i0 : (s.wpc ≠ .isAct ∧ s.wpc ≠ .deal) → s.work = []
+  i0' : s.wpc = .deal → s.work ≠ []
+  i1 : ∀ (id : Nat), tally (aGts id) s.adders + s.getters.flatten.count id + inSwap s id + s.work.count id
+         + s.ignored.count id + s.lost.count id + s.skipped.count id + s.invoked.count id
+         = (if id < s.nextId then 1 else 0)
+  i2 : ∀ (id : Nat), s.invoked.count id = s.notApp.count id + s.wbuf.count id + s.sent.count id
+  i3 : s.alive = true → s.wbuf ≠ [] →
+        (s.wpc = .rd ∨ s.wpc = .lock ∨ s.wpc = .swap ∨ s.wpc = .unlock ∨ s.wpc = .dealCall ∨ s.wpc = .isAct ∨
+         s.wpc = .deal ∨ s.wpc = .sub ∨ s.wpc = .flush)
+
+end Netpoll.Shard
